@@ -13,6 +13,7 @@ TRUSTED = ["Go regexp (the three tokenizer patterns are re-implemented by hand i
            "correspondence on grammar-derived, mutated and random selector strings)", "fmt %v / %d / %f and strconv.ParseFloat in pipes"]
 RULE = ("ExecReader vs the Lean selector model on (a) selectors derived from the documented grammar (keys, quoted keys, [i], [i:j], "
         "each, keep=>, (m:n) with begin/end, {k|type,...}, ::, fn=>) over ragged documents of depth <= 4 with indices in -1..len+1, "
+        "each text (valid, mutated or random) also replayed as a history over 7 documents in one process (selector cache), "
         "(b) mutated selectors, (c) random strings; recover() around every call (a panic is a violation) and a before/after comparison "
         "of the document; non-trivial = selector with >=2 steps on a document of depth >=2; error cases counted separately")
 
@@ -53,6 +54,15 @@ def gen_dim(rnd):
     b = rnd.choice(["begin", "0", "1", "2", "5"])
     e = rnd.choice(["end", "0", "1", "2", "3", "7"])
     return "(%s:%s)" % (b, e)
+
+
+def gen_dim_hist(rnd):
+    """dimension for the history stream: open-ended ranges (`begin` / `end` depend on the array at hand, so
+    whatever a cached parse remembers about one document is wrong for the next) are the common case"""
+    k = rnd.random()
+    if k < 0.5:
+        return "(%s:%s)" % (rnd.choice(["begin", "0", "1"]), rnd.choice(["end", "end", "2"]))
+    return gen_dim(rnd)
 
 
 def gen_step(rnd):
@@ -131,7 +141,10 @@ def explore(chk, rnd, tier):
             sel = gen_selector(rnd, rnd.choice(pool_docs))
             if rnd.random() < 0.5:
                 sel = rnd.choice(["grid", "rows", "items", "users[each].tags", "users.tags"]) + \
-                    "[" + ("keep=>" if rnd.random() < 0.3 else "") + ":".join(gen_dim(rnd) for _ in range(rnd.randint(1, 2))) + "]"
+                    "[" + ("keep=>" if rnd.random() < 0.3 else "") + ":".join(gen_dim_hist(rnd) for _ in range(rnd.randint(1, 2))) + "]"
+            if rnd.random() < 0.35:
+                # invalid texts too: a failed parse must fail again on every later evaluation
+                sel = mutate(rnd, sel) if rnd.random() < 0.8 else random_string(rnd)
             for d in rnd.sample(pool_docs, 4) + [ragged, ragged2, ragged]:
                 cases.append((d, sel, "history"))
         while len(cases) < m:
